@@ -309,6 +309,17 @@ def main():
                         failed_undecided.append(ob)
                     else:
                         failed_real.append({"obligation": ob, "messages": [d["text"] for d in mine][:4]})
+            # thorough: two more solver seeds; an obligation whose verdict depends on the seed is unstable => undecided
+            if tier == "thorough":
+                for extra_seed in (seed + 1, seed + 2):
+                    vx = run_verus(unit_path, prop.get("verify_modules"), rl, extra_seed)
+                    verus.setdefault("extra_seeds", []).append({"seed": extra_seed, "wall_s": vx["wall_s"], "smt_ms": vx.get("smt_ms", 0)})
+                    for ob in list(discharged):
+                        ex = vx["breakdown"].get(ob)
+                        if ex is not None and not ex["success"]:
+                            discharged.remove(ob)
+                            failed_undecided.append(ob)
+                            notes.append("obligation %s is seed-dependent (fails with smt.random_seed=%d)" % (ob, extra_seed))
             # retry undecided ones once with a larger budget and another seed
             if failed_undecided:
                 v2 = run_verus(unit_path, prop.get("verify_modules"), rl * 4, seed + 7919)
@@ -363,7 +374,8 @@ def main():
     # ---- 5. replay crate ------------------------------------------------------------------
     findings, fixed = load_known(pid)
     replay_res = {}
-    need_search = bool(failed_real or undecided)
+    # thorough: the small-scope searches run at their deep bounds whatever the verdict (bounded exploration on top of the proof)
+    need_search = bool(failed_real or undecided) or tier == "thorough"
     wants_replay = prop.get("standins") or findings or prop.get("search") or need_search
     known_lines = []
     new_violation_from_replay = []
